@@ -75,7 +75,7 @@ def unc_case_impl(args):
             for q, nm in enumerate("dva"):
                 n += 1
                 got = E(getattr(sol, nm)[r, j])
-                st, det = alg.prove_zero(sp.sympify(got - want[r][q]), numeric_only=True)
+                st, det = alg.prove_zero(sp.sympify(got - want[r][q]), budget=30)
                 if st in ("failed", "undecided"):
                     fails.append(dict(item="%s[%s row, freq %s]" % (nm, ("rigid-body", "elastic", "residual-flexibility")[r], f), detail=det, undecided=(st == "undecided")))
     return args, n, fails
@@ -142,12 +142,13 @@ def psd_case_impl(args):
     for r in range(2):
         for j in range(3):
             n += 1
-            st, det = alg.prove_zero(sp.sympify(E(psd[0][r, j]) - spec[r, j]), numeric_only=True)
+            st, det = alg.prove_zero(sp.sympify(E(psd[0][r, j]) - spec[r, j]), budget=60)
             if st in ("failed", "undecided"):
                 fails.append(dict(item="psd[%d, freq %d] == sum_i PSD_i |H_i|^2" % (r, j), detail=det, undecided=(st == "undecided")))
-        area = sum((freqs[j + 1] - freqs[j]) * (spec[r, j] + spec[r, j + 1]) / 2 for j in range(2))
+        # modular: the area is taken over the function's own psd values (each already proved equal to the specification above)
+        area = sum((freqs[j + 1] - freqs[j]) * (E(psd[0][r, j]) + E(psd[0][r, j + 1])) / 2 for j in range(2))
         n += 1
-        st, det = alg.prove_zero(sp.sympify(E(rms[0][r]) ** 2 - area), numeric_only=True)
+        st, det = alg.prove_zero(sp.sympify(E(rms[0][r]) ** 2 - area), budget=60)
         if st in ("failed", "undecided"):
             fails.append(dict(item="rms[%d]^2 == trapezoidal area of the response PSD" % r, detail=det, undecided=(st == "undecided")))
     return args, n, fails
@@ -221,7 +222,7 @@ def run(tier, seed):
             name = "%s%s::all %d output entries equal the specification" % (tag, args, n)
             und_ = [f_ for f_ in fails if f_.get("undecided")]
             fails = [f_ for f_ in fails if not f_.get("undecided")]
-            vs.append(report.Verdict(name, "failed" if fails else ("undecided" if und_ else "proved"), "sympy+mpmath (symbolic outputs, 50-digit identity test at 4 points)", 0.0, "post",
+            vs.append(report.Verdict(name, "failed" if fails else ("undecided" if und_ else "proved"), "sympy-%s (normal form of the symbolic outputs)" % sp.__version__, 0.0, "post",
                                      SU if tag == "fsolve" else UT, {"entries": n, "fails": fails[:4], "reason": und_[:2] if und_ else None}))
             allfails += [dict(case=str(args), **f) for f in fails]
     run.add_verdicts(vs)
